@@ -108,7 +108,12 @@ def run(ctx, rep):
                 rep.violate("C04:free:lock-leaked", "after all sessions ended a fresh process cannot take the lock", {"kind": "free"})
         finally:
             probe.close()
+    except c04_mp.Hanging:
+        pass
     finally:
+        for what in c04_mp.HUNG[:5]:
+            rep.violate("C04:mp:session-hangs", f"a session call never answered and never timed out ({what}): the next session does not proceed",
+                        {"kind": "hang", "what": what, "seed": ctx.seed})
         W.close()
     # ---- sessions of 1..3 long-lived handles of ONE process, serialised (the property's "all interleavings of k sessions over
     # 2..3 handles"): a handle that sat idle while another handle's session wrote, a session that ends with a failing flush and
@@ -181,6 +186,23 @@ def replay(ctx, data):
         d = U.cdrive(os.path.join(ctx.sub("c04hist"), "c.ukv"), [c02._deser(o, True) for o in data["ops"]], [tuple(x) for x in data["cfg"]])
         print("ops:", d["ops"]); print("results:", d["results"])
         return [vlib.Violation(s.replace("C02:", "C04:sessions:"), t) for s, t in d["oracle"]]
+    if data.get("kind") == "hang":
+        # the smallest contention: a writer inside its session, a reader (then a writer) asking with a short timeout
+        W = c04_mp.Workers(ctx, 3)
+        try:
+            path = os.path.join(ctx.sub("c04"), "hang.ukv")
+            for p in range(3):
+                W.call(p, cmd="new", h=path, path=path)
+            print("writer enters:", W.call(0, cmd="enter", h=path, w=True, timeout=5.0))
+            for p, w in ((1, False), (2, True)):
+                r = W.call(p, cmd="enter", h=path, w=w, timeout=0.5)
+                print(("writer" if w else "reader"), "asks with timeout 0.5 ->", r)
+                if r == "err:hung":
+                    out.append(vlib.Violation("C04:mp:session-hangs", "a session asked with a timeout neither proceeds nor times out while another process writes"))
+            W.call(0, cmd="exit", h=path)
+        finally:
+            W.close()
+        return out
     if data.get("kind") == "vector":
         probe = c04_skel.Probe(ctx)
         try:
